@@ -439,9 +439,9 @@ Section ledger.
     apply (elem_of_credited_outputs U F Hwf) in Hin as (Hk & Ht & Hc).
     exists t, chg. unfold mk_utxo.
     destruct (f_conf F !! t_id t) as [[h bh]|] eqn:Hconf; split; simpl; try done.
-    - by apply (known_true F).
+    - apply (known_true F). by rewrite Hconf.
     - by rewrite Hconf.
-    - by apply (known_true F).
+    - apply (known_true F). by rewrite Hconf.
     - by rewrite Hconf.
   Qed.
 
